@@ -350,8 +350,11 @@ class Tensor:
         return st if d is None else st[d]
 
     def storage_offset(self):
-        base = _base_of(self.a)
-        return (self.a.__array_interface__["data"][0] - base.__array_interface__["data"][0]) // self.a.itemsize
+        root = getattr(self, "_root", None)
+        if root is None:
+            root = _base_of(self.a).__array_interface__["data"][0]
+        cells = (self.a.__array_interface__["data"][0] - root) // self.a.itemsize
+        return cells // (getattr(self, "_bytes_per_cell", None) or 1)
 
     def data_ptr(self):
         return self.a.__array_interface__["data"][0]
@@ -411,11 +414,15 @@ class Tensor:
         v = np.lib.stride_tricks.as_strided(self.a, shape=(n // k_new,), strides=(self.a.strides[0] * k_new,))
         t = Tensor(v, new)
         t._bytes_per_cell = k_new
+        t._root = getattr(self, "_root", None) or _base_of(self.a).__array_interface__["data"][0]
         return t
 
     def _alias(self, a):
         t = Tensor(a, self.dtype)
         t.nf_nan, t.nf_inf = self.nf_nan, self.nf_inf
+        t._root = getattr(self, "_root", None) or _base_of(self.a).__array_interface__["data"][0]
+        if getattr(self, "_bytes_per_cell", None):
+            t._bytes_per_cell = self._bytes_per_cell
         return t
 
     def reshape(self, *shape):
@@ -1483,11 +1490,16 @@ class _Linalg:
             r = matmul(r, t)
         return r if k > 1 else t.clone()
 
-    # eigh / qr are environment stubs: the harness installs them (DESIGN 1.2)
+    # eigh / qr are environment stubs: the harness installs them (DESIGN 1.2); in concrete mode (validation of this
+    # stand-in against the real torch) they fall back to LAPACK through numpy
     @staticmethod
     def eigh(A):
         h = symx.CTX.opts.get("eigh")
         if h is None:
+            if _concrete():
+                m = np.array(A.a.tolist(), dtype=np.float64)
+                L, Q = np.linalg.eigh(m)
+                return Tensor(_map(_float, L.astype(object)), A.dtype), Tensor(_map(_float, Q.astype(object)), A.dtype)
             raise HarnessError("torch.linalg.eigh called without an installed stub")
         return h(A)
 
@@ -1495,6 +1507,12 @@ class _Linalg:
     def qr(A):
         h = symx.CTX.opts.get("qr")
         if h is None:
+            if _concrete():
+                from collections import namedtuple
+
+                m = np.array(A.a.tolist(), dtype=np.float64)
+                Q, R = np.linalg.qr(m)
+                return namedtuple("QR", ["Q", "R"])(Tensor(_map(_float, Q.astype(object)), A.dtype), Tensor(_map(_float, R.astype(object)), A.dtype))
             raise HarnessError("torch.linalg.qr called without an installed stub")
         return h(A)
 
